@@ -2,10 +2,11 @@
 docstrings in three styles documenting all / some / none of them, in or out of order, possibly conflicting."""
 PNAMES = ["dataset_name", "epochs", "lr", "verbose", "path", "mode", "k"]
 ANN = {"int": ["5", "-3", "0"], "str": ["'mnist'", "'a b'", "''"], "float": ["0.5", "1e-07"], "bool": ["True", "False"], "Optional[int]": ["None", "7"], "List[str]": ["None"]}
+CONTAINERS = ["[]", "(1, 2)", "{}", "['a', 'b']"]  # list / tuple / dict literals as signature defaults
 DOC_TYPES = ["int", "str", "float", "bool", "Optional[int]"]
 
 
-def gen_def(r, allow_kwonly=True, allow_kwargs=True, method=None):
+def gen_def(r, allow_kwonly=True, allow_kwargs=True, method=None, containers=False):
     """-> facts: dict(name, method, params=[{name, kind, ann, default}], kwargs, doc=[{name, prose, typ, default}], style, summary)"""
     n = r.randint(1, 4)
     names = r.sample(PNAMES, n)
@@ -18,6 +19,8 @@ def gen_def(r, allow_kwonly=True, allow_kwargs=True, method=None):
         want_default = r.random() < 0.55 or (seen_default and kind == "pos")
         if want_default:
             default = r.choice(ANN[ann]) if ann else r.choice(["5", "'mnist'", "0.5", "True", "None", "''", "0", "False"])
+            if containers and (ann in (None, "List[str]")) and r.random() < 0.15:
+                default = r.choice(CONTAINERS)
             if kind == "pos":
                 seen_default = True
         else:
